@@ -36,6 +36,8 @@ def typeIdents (m : MethodOut) : List String :=
   ((m.params ++ m.results).flatMap (fun v => v.refs)).eraseDups
 
 def resultLocals (n : Nat) : List String := (List.range n).map (fun i => "r" ++ toString i)
+/-- `arg0 …` of the typed Run wrapper -/
+def argLocals (n : Nat) : List String := (List.range n).map (fun i => "arg" ++ toString i)
 
 /-- the functions the testify template emits for one method -/
 def testifyFns (m : MethodOut) (retName : String) : List EmitFn :=
@@ -44,7 +46,7 @@ def testifyFns (m : MethodOut) (retName : String) : List EmitFn :=
   [ ⟨"mock method", ["_mock", "tmpRet", "_va", "_i", "_ca", "returnFunc", "ok"],
       ps ++ retName :: resultLocals m.results.length, "mock" :: ty⟩,
     ⟨"expecter method", ["_e"], ps, []⟩,
-    ⟨"Run", ["_c", "run", "args", "variadicArgs", "i", "a"], [], "mock" :: ty⟩,
+    ⟨"Run", ["_c", "run", "args", "variadicArgs", "i", "a"], argLocals m.params.length, "mock" :: ty⟩,
     ⟨"Return", ["_c"], m.results.map (·.name), ty⟩,
     ⟨"RunAndReturn", ["_c", "run"], [], ty⟩ ]
 
@@ -63,7 +65,7 @@ def matryerFns (m : MethodOut) : List EmitFn :=
 
 /-- the template-owned names used above, for the check against the regenerated lists -/
 def testifyOwnNames : List String :=
-  ["_mock", "tmpRet", "_va", "_i", "_ca", "returnFunc", "ok", "rIDX", "_e", "_c", "run", "args", "variadicArgs", "i", "a", "mock", "t", "_m"]
+  ["_mock", "tmpRet", "_va", "_i", "_ca", "returnFunc", "ok", "rIDX", "_e", "_c", "run", "args", "variadicArgs", "i", "a", "mock", "t", "_m", "argIDX"]
 def matryerOwnNames : List String := ["mock", "callInfo", "calls"]
 
 end Mockery.Gen
